@@ -61,6 +61,7 @@ def latmio_dir_connected(R, itr, D=None, seed=None):
             D[n - v - 1, :] = np.append(u[v + 1:], u[:v + 1])
             D[v, :] = D[n - v - 1, :][::-1]
 
+    D = np.asarray(D, dtype=float)  # weight x distance must not wrap in a narrow integer type
     i, j = np.where(R)
     k = len(i)
     itr *= k
@@ -189,6 +190,7 @@ def latmio_dir(R, itr, D=None, seed=None):
             D[n - v - 1, :] = np.append(u[v + 1:], u[:v + 1])
             D[v, :] = D[n - v - 1, :][::-1]
 
+    D = np.asarray(D, dtype=float)  # weight x distance must not wrap in a narrow integer type
     i, j = np.where(R)
     k = len(i)
     itr *= k
@@ -300,6 +302,7 @@ def latmio_und_connected(R, itr, D=None, seed=None):
             D[n - v - 1, :] = np.append(u[v + 1:], u[:v + 1])
             D[v, :] = D[n - v - 1, :][::-1]
 
+    D = np.asarray(D, dtype=float)  # weight x distance must not wrap in a narrow integer type
     i, j = np.where(np.tril(R))
     k = len(i)
     itr *= k
@@ -435,6 +438,7 @@ def latmio_und(R, itr, D=None, seed=None):
             D[n - v - 1, :] = np.append(u[v + 1:], u[:v + 1])
             D[v, :] = D[n - v - 1, :][::-1]
 
+    D = np.asarray(D, dtype=float)  # weight x distance must not wrap in a narrow integer type
     i, j = np.where(np.tril(R))
     k = len(i)
     itr *= k
